@@ -7,10 +7,13 @@ Is(k) == l <= Len(Rec) /\ E.e = k /\ l' = l + 1
 TInit == InitWith([n |-> 1, ft |-> 1, sth |-> 1, strat |-> "first"]) /\ ev = [e |-> "init"] /\ l = 1
 TReset == Is("reset") /\ Reset(E.cfg)
 \* JSON arrays are sequences 1..n
-TRound == Is("round") /\ Round([r \in R |-> E.res[r]])
+\* "l": a check that answers healthy late but within the configured check timeout (cfg.tmo above the latency) is a healthy check
+TRound == Is("round") /\ Round([r \in R |-> IF E.res[r] = "l" THEN "h" ELSE E.res[r]])
           /\ \A r \in R : /\ E.status[r] = ev'.status[r] /\ E.cf[r] = ev'.cf[r] /\ E.cs[r] = ev'.cs[r] /\ E.checks[r] = 1
 TSel == Is("sel") /\ Select(E.kind, E.got)
-TNext == TReset \/ TRound \/ TSel
+\* a configuration built separately reads back exactly as set (interval 10 ms, no initial delay; timeout cfg.tmo)
+TCfgView == Is("cfgview") /\ E.tmo = cfg.tmo /\ E.intv = 10 /\ E.delay = 0 /\ E.ft = cfg.ft /\ E.sth = cfg.sth /\ UNCHANGED vars
+TNext == TReset \/ TRound \/ TSel \/ TCfgView
 Accepted ==
   LET d == TLCGet("stats").diameter IN
   IF d - 1 = Len(Rec) THEN TRUE ELSE Print(<<"REJECTED", d, ToJson(Rec[d])>>, FALSE)
